@@ -47,6 +47,12 @@ Ident(class, cons, tag) ==
 LenOcts(l) == IF l <= 127 THEN << l >>
               ELSE LET k == IF l <= 255 THEN 1 ELSE IF l <= 65535 THEN 2 ELSE IF l <= 16777215 THEN 3 ELSE 4
                    IN << 128 + k >> \o Octs(l, k)
+\* 8.19 OBJECT IDENTIFIER contents: the first two arcs as 40 * a1 + a2, every subidentifier in base 128 with bit 8 set on all
+\* octets but its last.  (The codec under test does not support the type: these encodings are decoder INPUT only.)
+SubId(n) == LET b == Base128(n) IN [i \in 1..Len(b) |-> IF i < Len(b) THEN b[i] + 128 ELSE b[i]]
+RECURSIVE SubIds(_, _)
+SubIds(arcs, i) == IF i > Len(arcs) THEN <<>> ELSE SubId(arcs[i]) \o SubIds(arcs, i + 1)
+OidContent(arcs) == SubId(40 * arcs[1] + arcs[2]) \o SubIds(arcs, 3)
 TLV(class, cons, tag, content) == Ident(class, cons, tag) \o LenOcts(OLen(content)) \o content
 
 \* 8.3 INTEGER contents: minimal two's complement, of a Big signed value (up to 64 bits)
